@@ -384,6 +384,7 @@ class RaggedArray(IndexableArray, np.lib.mixins.NDArrayOperatorsMixin):
             array containing the row sums
         """
         if axis == 0:
+            self.ravel()
             _, column_indexes = self._shape.unravel_multi_index(np.arange(self.size))
             new_dtype = self.dtype
             weights = self.ravel()
@@ -576,6 +577,7 @@ class RaggedArray(IndexableArray, np.lib.mixins.NDArrayOperatorsMixin):
     def _as_padded_matrix(self, fill_value=0, side='right'):
         assert side in ["left", "right"]
 
+        self.ravel()
         ends = self._shape.ends
         starts = self._shape.starts
         max_chars = np.max(ends-starts)
